@@ -360,6 +360,9 @@ impl<'a> Engine<'a> {
                 match cfg.scripts {
                     Scripts::KeepOnly => {
                         if let Err(m) = (cfg.check)(&case, &Script::keep_going(), &keep, &keep) {
+                            if run(&Script::keep_going()) != keep {
+                                rec.machinery_error(format!("the keep-going run on {} does not reproduce its own log ({subject})", doc.text()));
+                            }
                             fail(&Script::keep_going(), &keep, m);
                             violations_here += 1;
                         }
@@ -379,6 +382,10 @@ impl<'a> Engine<'a> {
                             incomplete_trees += 1;
                         }
                         if let Some((s, o, m)) = first_err {
+                            // replay the schedule before trusting the failure
+                            if run(&s) != o {
+                                rec.machinery_error(format!("script {} on {} does not reproduce its own log ({subject})", s.text(), doc.text()));
+                            }
                             fail(&s, &o, m);
                             violations_here += 1;
                         }
